@@ -1,10 +1,165 @@
-"""Sanitizer layers for C01 (release builds are in the plan already; here: Miri, ASan,
-valgrind) and the threaded instance-independence run for C17 (Miri)."""
+"""Sanitizer layers.
+
+C01 (thorough): the C01 workload under AddressSanitizer (nightly, release profile so that
+no debug assertion pre-empts a memory error) in the std and no-allocator configurations, and a
+Miri-sized workload (C01M) under Miri in all three configurations.
+C17 (thorough): parser instances on separate threads under Miri (data-race detector) with
+several scheduler seeds.
+
+A sanitizer report or an abnormal exit is a violation (with the stderr tail as the witness
+and, for ASan, the last traced input); a build failure of a sanitizer layer is recorded in the
+evidence as unavailable and makes the run inconclusive, never a violation."""
+import concurrent.futures as cf
+import json
+import os
+import subprocess
+import time
+
+
+def _cargo_env(drv, extra=None):
+    env = dict(drv.ENV)
+    if extra:
+        env.update(extra)
+    return env
+
+
+def build_asan(drv, cfg):
+    env = _cargo_env(drv, {"RUSTFLAGS": "-Zsanitizer=address -Cforce-frame-pointers=yes"})
+    cmd = ["cargo", "+nightly", "build", "--offline", "--release", "--manifest-path", os.path.join(drv.HARNESS, "Cargo.toml"),
+           "--features", "cfg_" + cfg, "--target", "x86_64-unknown-linux-gnu",
+           "--target-dir", os.path.join(drv.BUILD, "asan-" + cfg)]
+    p = subprocess.run(cmd, env=env, stdout=subprocess.PIPE, stderr=subprocess.STDOUT, text=True)
+    return p.returncode == 0, p.stdout[-1500:]
+
+
+def asan_bin(drv, cfg):
+    return os.path.join(drv.BUILD, "asan-" + cfg, "x86_64-unknown-linux-gnu", "release", "aismon")
+
+
+def run_asan_shard(drv, cfg, seed, shard, nshards):
+    out = os.path.join(drv.WORK, "asan-%s-%d.json" % (cfg, shard))
+    env = dict(drv.ENV)
+    env["ASAN_OPTIONS"] = "detect_leaks=0:halt_on_error=1:exitcode=66:abort_on_error=0"
+    cmd = [asan_bin(drv, cfg), "run", "C01", "--tier", "quick", "--seed", str(seed), "--shard", str(shard),
+           "--nshards", str(nshards), "--out", out]
+    try:
+        p = subprocess.run(cmd, env=env, stdout=subprocess.PIPE, stderr=subprocess.PIPE, timeout=3600)
+        rc, err = p.returncode, p.stderr.decode("utf-8", "replace")
+    except subprocess.TimeoutExpired:
+        rc, err = -999, "watchdog"
+    rep = None
+    if rc == 0 and os.path.exists(out):
+        rep = json.load(open(out))
+        os.remove(out)
+    return {"cfg": cfg, "shard": shard, "rc": rc, "stderr": err[-3000:], "report": rep, "profile": "asan"}
+
+
+def miri_cmd(drv, cfg, args):
+    return ["cargo", "+nightly", "miri", "run", "--offline", "--manifest-path", os.path.join(drv.HARNESS, "Cargo.toml"),
+            "--features", "cfg_" + cfg, "--target-dir", os.path.join(drv.BUILD, "miri-" + cfg), "--"] + args
+
+
+def run_miri(drv, cfg, workload, seed, shard, nshards, miriflags="", timeout=3600):
+    env = _cargo_env(drv, {"MIRIFLAGS": ("-Zmiri-disable-isolation " + miriflags).strip(), "AISMON_NO_WATCHDOG": "1"})
+    cmd = miri_cmd(drv, cfg, ["run", workload, "--tier", "quick", "--seed", str(seed), "--shard", str(shard), "--nshards", str(nshards)])
+    t0 = time.time()
+    try:
+        p = subprocess.run(cmd, env=env, stdout=subprocess.PIPE, stderr=subprocess.PIPE, timeout=timeout)
+        rc, out, err = p.returncode, p.stdout.decode("utf-8", "replace"), p.stderr.decode("utf-8", "replace")
+    except subprocess.TimeoutExpired:
+        return {"cfg": cfg, "shard": shard, "rc": -999, "stderr": "watchdog", "report": None, "profile": "miri", "wall": time.time() - t0}
+    rep = None
+    if rc == 0:
+        for line in out.splitlines():
+            if line.startswith("{"):
+                try:
+                    rep = json.loads(line)
+                except ValueError:
+                    pass
+    return {"cfg": cfg, "shard": shard, "rc": rc, "stderr": err[-3000:], "report": rep, "profile": "miri", "wall": time.time() - t0}
+
+
+def miri_warm(drv, cfg):
+    """first invocation builds the sysroot and the dependencies; do it once, serially per cfg"""
+    env = _cargo_env(drv, {"MIRIFLAGS": "-Zmiri-disable-isolation", "AISMON_NO_WATCHDOG": "1"})
+    p = subprocess.run(miri_cmd(drv, cfg, ["selftest-none"]), env=env, stdout=subprocess.PIPE, stderr=subprocess.STDOUT, text=True)
+    ok = "unknown command" in p.stdout or p.returncode in (0, 2)
+    return ok, p.stdout[-1500:]
+
+
+def _collect(drv, jobs, pid, cov_key, cov, violations, inconclusive, kind):
+    evals = 0
+    classes = set()
+    reports = 0
+    for j in jobs:
+        r = j["report"]
+        if r is not None:
+            evals += r["evaluations"]
+            classes.update(r["classes"])
+            for v in r["violations"]:
+                violations.append({"prop": pid, "sig": v["sig"], "detail": "[%s/%s] %s" % (kind, j["cfg"], v["detail"]),
+                                   "replay": v["replay"], "cfg": j["cfg"], "profile": kind, "count": r["by_sig"].get("%s|%s" % (v["prop"], v["sig"]), 1)})
+            continue
+        err = j["stderr"]
+        if "AddressSanitizer" in err or "Undefined Behavior" in err or "error: unsupported operation" in err or "data race" in err.lower():
+            reports += 1
+            first = next((l for l in err.splitlines() if "ERROR: AddressSanitizer" in l or "Undefined Behavior" in l or "Data race" in l or "unsupported operation" in l), "sanitizer report")
+            violations.append({"prop": pid, "sig": "%s-report:%s" % (kind, first.strip()[:80]),
+                               "detail": "%s reported on shard %d of build %s: %s" % (kind, j["shard"], j["cfg"], err[-1200:]),
+                               "replay": {"kind": "note", "note": "re-run: shard %d, build %s, see detail" % (j["shard"], j["cfg"])},
+                               "cfg": j["cfg"], "profile": kind, "count": 1})
+        elif j["rc"] == -999:
+            inconclusive.append("%s shard %d (%s) hit the wall-clock watchdog" % (kind, j["shard"], j["cfg"]))
+        else:
+            violations.append({"prop": pid, "sig": "%s-abnormal-exit:%s" % (kind, j["rc"]),
+                               "detail": "%s build %s shard %d exited with status %s: %s" % (kind, j["cfg"], j["shard"], j["rc"], err[-800:]),
+                               "replay": {"kind": "note", "note": "abnormal exit under " + kind}, "cfg": j["cfg"], "profile": kind, "count": 1})
+    cov.setdefault("sanitizers", {})[cov_key] = {"calls_observed": evals, "distinct_classes": len(classes), "processes": len(jobs),
+                                                  "sanitizer_reports": reports}
 
 
 def run(drv, tier, seed, cov, violations, inconclusive):
-    cov.setdefault("sanitizers", {})["note"] = "see thorough tier"
+    cov.setdefault("sanitizers", {})["overflow_and_ub_checks"] = "chk builds: overflow-checks, debug-assertions and std unsafe-precondition checks live in every call counted above"
+    if tier != "thorough":
+        cov["sanitizers"]["miri"] = "thorough tier"
+        cov["sanitizers"]["asan"] = "thorough tier"
+        return
+    os.makedirs(drv.WORK, exist_ok=True)
+    # AddressSanitizer
+    jobs = []
+    for cfg in ("std", "none"):
+        ok, msg = build_asan(drv, cfg)
+        if not ok:
+            cov["sanitizers"]["asan-" + cfg] = "unavailable: build failed"
+            inconclusive.append("ASan build for %s failed: %s" % (cfg, msg[-300:]))
+            continue
+        with cf.ThreadPoolExecutor(max_workers=drv.NCPU) as ex:
+            jobs += list(ex.map(lambda s: run_asan_shard(drv, cfg, seed, s, drv.NCPU), range(drv.NCPU)))
+    _collect(drv, jobs, "C01", "asan", cov, violations, inconclusive, "asan")
+    # Miri
+    jobs = []
+    for cfg in ("std", "alloc", "none"):
+        ok, msg = miri_warm(drv, cfg)
+        if not ok:
+            cov["sanitizers"]["miri-" + cfg] = "unavailable"
+            inconclusive.append("Miri build for %s failed: %s" % (cfg, msg[-300:]))
+            continue
+        with cf.ThreadPoolExecutor(max_workers=drv.NCPU) as ex:
+            jobs += list(ex.map(lambda s: run_miri(drv, cfg, "C01M", seed, s, drv.NCPU), range(drv.NCPU)))
+    _collect(drv, jobs, "C01", "miri", cov, violations, inconclusive, "miri")
 
 
 def run_c17_threads(drv, tier, seed, cov, violations, inconclusive):
-    pass
+    if tier != "thorough":
+        cov["threads_under_miri"] = "thorough tier"
+        return
+    jobs = []
+    for cfg in ("std", "none"):
+        ok, msg = miri_warm(drv, cfg)
+        if not ok:
+            inconclusive.append("Miri build for %s failed: %s" % (cfg, msg[-300:]))
+            continue
+        # several scheduler seeds: Miri's thread interleaving is seed-dependent
+        with cf.ThreadPoolExecutor(max_workers=drv.NCPU) as ex:
+            jobs += list(ex.map(lambda s: run_miri(drv, cfg, "C17T", seed + s, 0, 1, miriflags="-Zmiri-seed=%d" % s), range(8)))
+    _collect(drv, jobs, "C17", "threads_under_miri", cov, violations, inconclusive, "miri")
